@@ -18,6 +18,7 @@ func main() {
 	dump := flag.String("dump", "", "debug: dump effects and facts reachable from the entry function id")
 	dumpFilter := flag.String("filter", "", "debug: only effects whose name contains this")
 	listFuncs := flag.Bool("funcs", false, "debug: list library functions")
+	listMutable := flag.Bool("mutable", false, "debug: list the fields written after construction (reference table for S0.state)")
 	listFields := flag.Bool("fields", false, "debug: list the fields of library struct types (reference table for renamed-field resolution)")
 	sumOf := flag.String("summary", "", "debug: print the summary of a function id")
 	explain := flag.String("explain", "", "re-evaluate the obligation recorded in a violation report")
@@ -63,6 +64,9 @@ func main() {
 			}
 		}()
 		switch {
+		case *listMutable:
+			p := Load(*repo, *goarch, nil)
+			dumpMutable(NewAnalyzer(p))
 		case *listFields:
 			p := Load(*repo, *goarch, nil)
 			dumpFields(p)
